@@ -121,6 +121,7 @@ func NewExplorer(prog *ssa.Program, h *ssa.Function) *Explorer {
 	registerBlobs(ex)
 	registerSnapshots(ex)
 	registerSigModel(ex)
+	registerGradingModel(ex)
 	return ex
 }
 
